@@ -659,12 +659,18 @@ def gen_keepalive(rng, knobs=None):
     # the application may install its handler on the live connection (set_handler_using_factory): the notifications go to the handler
     # that is installed when they are due
     swap_at = rng.randrange(0, max(1, horizon)) if rng.random() < k.get('p_set_handler', 0.35) else None
+    fault_at = rng.randrange(0, max(1, horizon // 2)) if rng.random() < k.get('p_write_fault', 0.3) else None
     while t < horizon:
         step = rng.choice([period // 3 + 1, period, period + 1, life // 2 + 1, life, 2 * life + 3])
         step = max(1, min(step, horizon - t, 50000))
         if swap_at is not None and t >= swap_at:
             prog.append(['set_handler', 'c'])
             swap_at = None
+        if fault_at is not None and t >= fault_at:
+            # the connection goes half-dead: the client's writes fail from now on, nothing arrives any more (no EOF, no reset): the silence
+            # of the server must still be reported
+            prog.append(['write_fault', 'c'])
+            fault_at = None
         prog.append(['advance', step])
         t += step
         if rng.random() < 0.25:
